@@ -50,29 +50,33 @@ func init() {
 	// C10: a future cancelled while its body ignores the cancellation and completes with a value: readers before and
 	// after the cancel get the same outcome
 	addWitness("readers-agree-across-cancel", "f", func(iters int) string {
-		w, err := newConcWorld()
-		if err != nil {
-			return "setup-error"
-		}
-		g := newGate(w, "hold2!")
-		if o := evalW(w, "(def f (future (do (hold2!) 42)))"); !strings.HasPrefix(o, "ok") {
-			return "setup " + o
-		}
-		select {
-		case <-g.entered:
-		case <-time.After(10 * time.Second):
-			return "setup-error body never entered"
-		}
-		early := make(chan string, 1)
-		go func() { early <- evalW(w, "(try (deref f) (catch e :failed))") }()
-		time.Sleep(30 * time.Millisecond)
-		c := evalW(w, "(future-cancel f)")
-		close(g.release)
-		e := <-early
-		l1 := evalW(w, "(try (deref f) (catch e :failed))")
-		l2 := evalW(w, "(try (deref f) (catch e :failed))")
-		if c != "ok T" || e != l1 || l1 != l2 {
-			return fmt.Sprintf("cancel=%s early=%s late=%s,%s\t!readers of one future got different outcomes before and after future-cancel", c, e, l1, l2)
+		// two bodies: one that notices the cancellation at its next form (outcome: the timeout error), and one whose LAST
+		// form is the host call that ignores the cancellation (outcome: that call's value)
+		for _, b := range []struct{ gate, body string }{{"hold2!", "(do (hold2!) 42)"}, {"hold3!", "(hold3!)"}} {
+			w, err := newConcWorld()
+			if err != nil {
+				return "setup-error"
+			}
+			g := newGate(w, b.gate)
+			if o := evalW(w, "(def f (future "+b.body+"))"); !strings.HasPrefix(o, "ok") {
+				return "setup " + o
+			}
+			select {
+			case <-g.entered:
+			case <-time.After(10 * time.Second):
+				return "setup-error body never entered"
+			}
+			early := make(chan string, 1)
+			go func() { early <- evalW(w, "(try (deref f) (catch e :failed))") }()
+			time.Sleep(30 * time.Millisecond)
+			c := evalW(w, "(future-cancel f)")
+			close(g.release)
+			e := <-early
+			l1 := evalW(w, "(try (deref f) (catch e :failed))")
+			l2 := evalW(w, "(try (deref f) (catch e :failed))")
+			if c != "ok T" || e != l1 || l1 != l2 {
+				return fmt.Sprintf("body=%s cancel=%s early=%s late=%s,%s\t!readers of one future got different outcomes before and after future-cancel", b.body, c, e, l1, l2)
+			}
 		}
 		return "ok"
 	})
